@@ -128,20 +128,23 @@ func (x *Exec) Visit(key string) bool {
 
 // Config of one exploration.
 type Config struct {
-	MaxCost  int           // deviation bound
-	Deadline time.Time     // zero = none; on expiry Exhaustive=false
-	Prune    bool          // enable Visit
-	Shard    int           // this process
-	Shards   int           // number of processes (0/1 = no sharding)
-	ShardDepth int         // choice depth on which subtrees are distributed (default 2)
+	MaxCost    int       // deviation bound
+	Deadline   time.Time // zero = none; on expiry Exhaustive=false
+	Prune      bool      // enable Visit
+	Shard      int       // this process
+	Shards     int       // number of processes (0/1 = no sharding)
+	ShardDepth int       // choice depth on which subtrees are distributed (default 2)
 	// ShardDeviations > 0 distributes subtrees by their first k non-default choices (position and
 	// alternative) instead of by the first ShardDepth choices: the right key when nearly all
 	// choices are 0 (fault enumeration). Executions with fewer than k deviations are shared.
 	ShardDeviations int
-	MaxExecs int           // safety cap (0 = none); hitting it sets Exhaustive=false
+	MaxExecs        int // safety cap (0 = none); hitting it sets Exhaustive=false
 	// TolerateDivergence: a prefix that does not reproduce is not a harness error; the execution
 	// continues with default choices, Stats.Divergences counts it and Exhaustive becomes false
 	TolerateDivergence bool
+	// MaxDivergences > 0: stop the exploration (Exhaustive=false) once that many executions have
+	// diverged — a tree that keeps moving under the explorer cannot be enumerated, only wasted on
+	MaxDivergences int
 }
 
 // Stats of one exploration.
@@ -197,6 +200,10 @@ func Run(cfg Config, body func(x *Exec, own bool)) Stats {
 			if !cfg.Deadline.IsZero() && time.Now().After(cfg.Deadline) {
 				r.stats.Exhaustive = false
 				r.stats.DeadlineHit = true
+				return r.stats
+			}
+			if cfg.MaxDivergences > 0 && r.stats.Divergences >= cfg.MaxDivergences {
+				r.stats.Exhaustive = false
 				return r.stats
 			}
 			if cfg.MaxExecs > 0 && r.stats.Executions >= cfg.MaxExecs {
@@ -305,7 +312,10 @@ func (r *Runner) runOne(w work, body func(x *Exec, own bool)) {
 // Replay returns an Exec that follows a fixed choice sequence (defaults after its end); if
 // body is non-nil it is run once with it. No exploration, no pruning.
 func Replay(choices []int, body func(x *Exec, own bool)) *Exec {
-	r := &Runner{cfg: Config{MaxCost: 1 << 30, Shards: 1}}
+	// tolerant: a recorded choice that no longer fits (the code under test is not deterministic given its
+	// choices, or it changed) does not panic inside a thread of the code under test — the execution goes on
+	// with defaults and x.Diverged says so
+	r := &Runner{cfg: Config{MaxCost: 1 << 30, Shards: 1, TolerateDivergence: true}}
 	x := &Exec{r: r, prefix: choices}
 	if body != nil {
 		body(x, true)
